@@ -176,6 +176,13 @@ def build_inputs(tier):
         for tail in [" + \\\n    1\n", " \\\n    'more'\n", "  # c\n"]:
             cases.append(("spec-then-continuation", f"y = {fs}{tail}z = 3\n", "exec"))
             cases.append(("spec-then-continuation", f"if a:\n    y = {fs}{tail}z = 3\n", "exec"))
+    # quote characters INSIDE f-strings: pairs of the delimiter's own quote in triple-quoted literal text before a field, a lone
+    # quote, quotes of the other kind; a quote as the fill character of a format spec
+    tq, dq = "'" * 3, '"' * 3
+    for s in [f"f{tq}a''{{x}}{tq}", f"f{dq}{{a}} \"\" {{b}}{dq}", f"f{tq}it's {{x}}{tq}", f"f{tq}SELECT '' AS e, {{col}}\nFROM {{t}}{tq}", f"f{tq}a\"{{x}}{tq}", f"f{dq}a''{{x}}'{dq}",
+              f"f{tq}''{{x}}''{{y}}{tq}", f"rf{dq}\"\"{{x}}{dq}", "f\"{x:'^10}\"", "f'{x:\"^10}'", f"f{tq}{{x:'^10}}{tq}", "f\"{name:'>12}|{value:'<8}\"", "f'{d[\"k\"]:>5}'", "f\"{x!r:'<6}\""]:
+        cases.append(("quotes-inside", "x = " + s + "\n", "exec"))
+        cases.append(("quotes-inside", "print(" + s + ", 1)\n", "exec"))
     # product generator (valid sub-domain and known-defect sub-domain)
     for _ in range(900 * N):
         p = r.choice(PREFIXES)
